@@ -98,6 +98,9 @@ func indexByte(s string, c byte) int {
 // LookupIP / LookupHost go through the same scripted resolver (each call is one
 // lookup as far as the script is concerned).
 func LookupIP(host string) ([]net.IP, error) {
+	if host == "" {
+		return net.LookupIP(host) // no query is sent for an empty name: the real answer (an error) needs no network
+	}
 	if ResolveHook != nil && net.ParseIP(host) == nil {
 		a, err := ResolveHook("ip", host)
 		if err != nil {
@@ -109,6 +112,9 @@ func LookupIP(host string) ([]net.IP, error) {
 }
 
 func LookupHost(host string) ([]string, error) {
+	if host == "" {
+		return net.LookupHost(host)
+	}
 	if ResolveHook != nil && net.ParseIP(host) == nil {
 		a, err := ResolveHook("ip", host)
 		if err != nil {
